@@ -1,0 +1,55 @@
+//go:build verif
+
+// Machine-checked contracts for package rhp (comment-only; compiled only
+// under the build tag "verif").  Read by /verif/govc; see /verif/DESIGN.md §2.5.
+
+package rhp
+
+// v1tax: the post-HardforkTax file contract tax of consensus.State.FileContractTax:
+// floor(39 p / 1000) rounded down to a multiple of the siafund count.
+//@ spec v1tax(p int) int = 39*p/1000 - (39*p/1000) % 10000
+
+//@ func taxAdjustedPayout
+//@   prop C17
+//@   requires types.u128(target) * 1000 < types.M128
+//@   ensures @inverse types.u128(result) - v1tax(types.u128(result)) == types.u128(target)
+
+// the mod64 closure of taxAdjustedPayout; its only call sites pass the siafund count
+//@ func taxAdjustedPayout$1
+//@   prop C17
+//@   requires v == 10000
+//@   ensures @mod types.u128(result) == types.u128(c) % v
+
+//@ func PrepareContractFormation
+//@   prop C17
+//@   requires (types.u128(renterPayout) + types.u128(host.ContractPrice) + types.u128(hostCollateral)) * 1000 < types.M128
+//@   requires endHeight + host.WindowSize < 2^64
+//@   let V = result.ValidProofOutputs
+//@   let M = result.MissedProofOutputs
+//@   ensures @shape len(V) == 2 && len(M) == 3 && result.Filesize == 0 && result.RevisionNumber == 0 && result.WindowStart == endHeight && result.WindowEnd == endHeight + host.WindowSize
+//@   ensures @payouts V[0].Value == renterPayout && V[0].Address == refundAddr && types.u128(V[1].Value) == types.u128(host.ContractPrice) + types.u128(hostCollateral) && V[1].Address == host.Address
+//@   ensures @missed-equals-valid types.u128(V[0].Value) + types.u128(V[1].Value) == types.u128(M[0].Value) + types.u128(M[1].Value) + types.u128(M[2].Value)
+//@   ensures @tax-equation types.u128(result.Payout) == types.u128(V[0].Value) + types.u128(V[1].Value) + v1tax(types.u128(result.Payout))
+
+//@ func CalculateHostPayouts
+//@   prop C17
+//@   requires endHeight + settings.WindowSize < 2^64
+//@   let ext = endHeight + settings.WindowSize > fc.WindowEnd ? endHeight + settings.WindowSize - fc.WindowEnd : 0
+//@   requires types.u128(settings.StoragePrice) * fc.Filesize < types.M128 && types.u128(settings.Collateral) * fc.Filesize < types.M128
+//@   requires types.u128(settings.ContractPrice) + types.u128(settings.StoragePrice) * fc.Filesize * (endHeight + settings.WindowSize > fc.WindowEnd ? endHeight + settings.WindowSize - fc.WindowEnd : 0) + types.u128(settings.Collateral) * fc.Filesize * (endHeight + settings.WindowSize > fc.WindowEnd ? endHeight + settings.WindowSize - fc.WindowEnd : 0) + types.u128(newCollateral) < types.M128
+//@   ensures @base-price types.u128(basePrice) == types.u128(settings.StoragePrice) * fc.Filesize * ext
+//@   ensures @void types.u128(voidMissedPayout) == types.u128(settings.StoragePrice) * fc.Filesize * ext + types.u128(settings.Collateral) * fc.Filesize * ext
+//@   ensures @valid types.u128(hostValidPayout) == types.u128(settings.ContractPrice) + types.u128(voidMissedPayout) + types.u128(newCollateral)
+//@   ensures @missed-split types.u128(hostMissedPayout) + types.u128(voidMissedPayout) == types.u128(hostValidPayout)
+
+//@ func PrepareContractRenewal
+//@   prop C17
+//@   requires endHeight + host.WindowSize < 2^64
+//@   requires types.u128(host.StoragePrice) * currentRevision.FileContract.Filesize < types.M128 && types.u128(host.Collateral) * currentRevision.FileContract.Filesize < types.M128
+//@   requires (types.u128(renterPayout) + types.u128(host.ContractPrice) + types.u128(host.StoragePrice) * currentRevision.FileContract.Filesize * (endHeight + host.WindowSize > currentRevision.FileContract.WindowEnd ? endHeight + host.WindowSize - currentRevision.FileContract.WindowEnd : 0) + types.u128(host.Collateral) * currentRevision.FileContract.Filesize * (endHeight + host.WindowSize > currentRevision.FileContract.WindowEnd ? endHeight + host.WindowSize - currentRevision.FileContract.WindowEnd : 0) + types.u128(newCollateral)) * 1000 < types.M128
+//@   let V = result0.ValidProofOutputs
+//@   let M = result0.MissedProofOutputs
+//@   ensures @shape len(V) == 2 && len(M) == 3 && result0.Filesize == currentRevision.FileContract.Filesize && result0.FileMerkleRoot == currentRevision.FileContract.FileMerkleRoot && result0.RevisionNumber == 0 && result0.WindowStart == endHeight && result0.WindowEnd == endHeight + host.WindowSize && result0.UnlockHash == currentRevision.FileContract.UnlockHash
+//@   ensures @missed-equals-valid types.u128(V[0].Value) + types.u128(V[1].Value) == types.u128(M[0].Value) + types.u128(M[1].Value) + types.u128(M[2].Value)
+//@   ensures @tax-equation types.u128(result0.Payout) == types.u128(V[0].Value) + types.u128(V[1].Value) + v1tax(types.u128(result0.Payout))
+//@   ensures @renter V[0].Value == renterPayout && M[0].Value == renterPayout
